@@ -40,5 +40,5 @@ def _shape(rng, pool, cfg):
     return prog
 
 
-gen_case = _orm.make_gen({"follow": 5, "delete": 4, "tag_add": 3, "set_k": 4, "k_rename": 3, "bulk": 1, "m_ops": 1}, _cfg, shape=_shape)
+gen_case = _orm.make_gen({"follow": 5, "delete": 4, "tag_add": 3, "set_k": 4, "k_rename": 3, "bulk": 1, "m_ops": 1, "row_switch": 3, "node_parent": 3}, _cfg, shape=_shape)
 run_case = _orm.make_run(("C30",))
